@@ -337,6 +337,12 @@ def main():
                         if ans != mo:
                             mismatches.append(dict(suite=suite, request=req, impl=ans, model=mo))
     totals["mismatches"] = len(mismatches)
+    if mismatches and cfg.get("mismatch_is_violation"):
+        # the property itself says "behaves like the (proved) reference": a difference on a concrete
+        # input/history is a concrete failing input
+        for m in mismatches[:50]:
+            failing.append(dict(oracle="behaves-like-model", suite=m["suite"], input=m["request"],
+                                detail="implementation: " + m["impl"][:1500] + " ||| model: " + m["model"][:1500]))
     if mismatches:
         breaks.append(dict(kind="correspondence", what=f"{len(mismatches)} case(s) where implementation and model differ",
                            first=mismatches[:5]))
